@@ -918,7 +918,28 @@ pub fn main(args: &[String]) -> i32 {
         }
     };
 
+    let only_regress = a.get("only-regress").is_some();
+    // regression corpus (shard 0): witnesses of earlier findings are replayed first
     if shard == 0 {
+        if let Some(dir) = a.get("regress") {
+            let mut files: Vec<_> = std::fs::read_dir(dir).map(|d| d.filter_map(|e| e.ok()).map(|e| e.path()).collect()).unwrap_or_default();
+            files.sort();
+            for f in files {
+                let name = f.file_name().unwrap().to_string_lossy().to_string();
+                if !(name.starts_with("C04") || name.starts_with("C16")) {
+                    continue;
+                }
+                if let Ok(v) = serde_json::from_str::<serde_json::Value>(&std::fs::read_to_string(&f).unwrap_or_default()) {
+                    if let Ok(case) = serde_json::from_value::<Case>(v["case"].clone()) {
+                        let r = std::panic::catch_unwind(std::panic::AssertUnwindSafe(|| run_case(&case, None)));
+                        let r = r.map_err(|_| crate::panics::take().first().map(|p| format!("{}:{} {}", p.file, p.line, p.message)).unwrap_or_default());
+                        handle(&case, r, 0, "regress");
+                    }
+                }
+            }
+        }
+    }
+    if shard == 0 && !only_regress {
         for (case, exp) in doc_cases() {
             let r = std::panic::catch_unwind(std::panic::AssertUnwindSafe(|| run_case(&case, Some(&exp))));
             let r = r.map_err(|_| crate::panics::take().first().map(|p| format!("{}:{} {}", p.file, p.line, p.message)).unwrap_or_default());
@@ -926,7 +947,7 @@ pub fn main(args: &[String]) -> i32 {
         }
     }
     let mut i = 0u64;
-    while i < max_runs && Instant::now() < deadline {
+    while !only_regress && i < max_runs && Instant::now() < deadline {
         let s = rng::hash3(seed, shard, i);
         let case = gen_case(s);
         let r = std::panic::catch_unwind(std::panic::AssertUnwindSafe(|| run_case(&case, None)));
